@@ -32,7 +32,7 @@ type c17Scenario struct {
 	Want       string `json:"want,omitempty"`
 }
 
-var c17Chars = []string{"a", "é", "中", "😀", "�", "\n", "𠀀", "ß", "\uFEFF"}
+var c17Chars = []string{"a", "é", "中", "😀", "�", "\n", "𠀀", "ß", "\uFEFF", "\U0010FFFF", "\u07FF", "\uFFFF", "\U00010000"}
 var c17Counts = []int{0, 1, 2, 3, 5, 40, 1023, 1024, 1364, 1365, 1366, 2047, 2048, 4093, 4094, 4095, 4096, 4097, 8191, 8192, 8193, 13000}
 
 type corruption struct {
@@ -49,6 +49,10 @@ var c17Corruptions = []corruption{
 	{"0xFF", []byte{0xFF}},
 	{"gbk-text", []byte{0xD6, 0xD0, 0xCE, 0xC4}},
 	{"4byte-truncated", []byte{0xF0, 0x9F, 0x98}},
+	{"beyond-U+10FFFF", []byte{0xF4, 0x90, 0x80, 0x80}},
+	{"overlong-3byte", []byte{0xE0, 0x80, 0xAF}},
+	{"surrogate-low", []byte{0xED, 0xB0, 0x80}},
+	{"5byte-lead", []byte{0xF8, 0x88, 0x80, 0x80, 0x80}},
 }
 
 func genText(t *zsim.Tape) (string, string) {
